@@ -34,7 +34,7 @@ class Awaiting:
 
     def __enter__(self):
         if self.deferred.is_awaiting:
-            raise DeferredCycle()
+            raise DeferredCycle(self.deferred)
         self.deferred.is_awaiting = True
         Awaiting.awaiting_stack.append(self.deferred)
         return self
@@ -188,7 +188,14 @@ class Deferred(BaseDeferred):
         if self.settled:
             return self.value
         else:
-            self.value = self.fn()
+            value = self.fn()
+            # 'x = y' / 'y = x': following the values would never end
+            alias = value
+            while isinstance(alias, Deferred) and alias is not self and alias.settled:
+                alias = alias.value
+            if alias is self:
+                raise DeferredCycle(self)
+            self.value = value
             self.settled = True
             return self.value
 
@@ -324,7 +331,7 @@ class LinearPolynomial(BaseDeferred):
                 break
             if passes > len(seen) + 1:
                 # Keeps expanding without getting anywhere: x = x + 1
-                raise DeferredCycle()
+                raise DeferredCycle(*seen)
 
         return sum(key.wait() * value for key, value in self.coeffs.items()) + self.constant_term
 
